@@ -15,6 +15,7 @@ use crate::agg::{AggSettings, AggregatorNode};
 use crate::chain::ChainView;
 use crate::db::{Db, Entity};
 use crate::parties::{EpochKey, Party};
+use crate::signer::{LinkPolicy, LinkShared, SignerNode};
 
 #[derive(Serialize, Deserialize, Clone, Debug, Default, PartialEq)]
 pub struct Faults {
@@ -115,6 +116,11 @@ pub enum Event {
     /// fails; `crash` = every later statement fails too and the node is restarted right after
     /// the event during which it fired
     ArmDbFault { statement: u64, crash: bool },
+    /// C20: one cycle of a real signer node's state machine under a link policy
+    SignerTick { party: usize, policy: LinkPolicy },
+    SignerRestart { party: usize },
+    /// the signer's view of the chain catches up
+    SignerSyncView { party: usize },
     /// marker: faults have stopped and the quiescence script has run; the oracle evaluates the
     /// bounded-liveness verdict here
     CheckLiveness,
@@ -161,6 +167,19 @@ impl Event {
                 }
             }
             Event::CheckLiveness => "check-liveness",
+            Event::SignerTick { policy, .. } => {
+                if policy.unreachable {
+                    "signer-tick-unreachable"
+                } else if policy.stale_epoch_settings > 0 {
+                    "signer-tick-stale-settings"
+                } else if policy.registration > 0 || policy.signature > 0 {
+                    "signer-tick-link-fault"
+                } else {
+                    "signer-tick"
+                }
+            }
+            Event::SignerRestart { .. } => "signer-restart",
+            Event::SignerSyncView { .. } => "signer-sync-view",
         }
     }
 }
@@ -245,6 +264,10 @@ pub struct World {
     pub db_faults_counted: usize,
     /// (party, entity) pairs for which the party won no lottery
     pub lost_lotteries: std::collections::BTreeSet<(usize, Entity)>,
+    /// C20: real signer nodes (empty when signers are light actors)
+    pub signers: Vec<SignerNode>,
+    pub link: std::sync::Arc<LinkShared>,
+    pub signer_ticks: Vec<(usize, usize, String, Option<String>)>,
     pub quiescence_register_attempts: BTreeMap<(usize, u64), u32>,
 }
 
@@ -338,6 +361,12 @@ impl World {
             AggSettings { protocol_parameters: sc.parameters(), entity_types },
         );
         let db_fault: Arc<Mutex<DbFaultState>> = Default::default();
+        let link = std::sync::Arc::new(LinkShared {
+            routes: Default::default(),
+            calls: Default::default(),
+            step: Mutex::new(0),
+            epoch_settings_history: Default::default(),
+        });
         World {
             sc,
             scratch,
@@ -365,6 +394,9 @@ impl World {
             liveness_markers: 0,
             db_faults_counted: 0,
             lost_lotteries: Default::default(),
+            signers: vec![],
+            link,
+            signer_ticks: vec![],
             quiescence_register_attempts: BTreeMap::new(),
         }
     }
@@ -398,6 +430,45 @@ impl World {
             }
             Ok(())
         })));
+    }
+
+    /// Start (or restart) the aggregator process and publish its route filter to the signers' link.
+    pub fn start_aggregator(&mut self) -> anyhow::Result<()> {
+        *self.link.routes.lock().unwrap() = None;
+        self.agg.start()?;
+        *self.link.routes.lock().unwrap() = self.agg.inner.as_ref().map(|i| i.routes.clone());
+        Ok(())
+    }
+
+    pub fn stop_aggregator(&mut self) {
+        *self.link.routes.lock().unwrap() = None;
+        self.agg.stop();
+    }
+
+    /// C20: create one real signer node per party (each with its own chain view and directory).
+    pub fn spawn_signer_nodes(&mut self) -> anyhow::Result<()> {
+        for (i, p) in self.parties.clone().into_iter().enumerate() {
+            let view = Arc::new(Mutex::new(self.agg_view.lock().unwrap().clone()));
+            let dir = self.scratch.sub(&format!("signer-{i}"));
+            let mut node = SignerNode::new(p, i, dir, view, self.link.clone());
+            node.start()?;
+            self.signers.push(node);
+        }
+        Ok(())
+    }
+
+    fn sync_signer_view(&mut self, party: usize) {
+        let stakes = self.stakes_for_recording_epoch(self.epoch + 1);
+        let mut v = self.signers[party].view.lock().unwrap();
+        v.epoch = self.epoch;
+        v.immutable = self.immutable;
+        v.block = self.block;
+        v.stakes = stakes;
+    }
+
+    pub fn signer_view_is_synced(&self, party: usize) -> bool {
+        let v = self.signers[party].view.lock().unwrap();
+        v.epoch == self.epoch && v.immutable == self.immutable && v.block == self.block
     }
 
     pub fn hit(&mut self, key: &str) {
@@ -514,13 +585,13 @@ impl World {
         if crashed {
             self.hit("fault_crash_at_statement");
             self.crashes_at.push(self.step);
-            self.agg.stop();
+            self.stop_aggregator();
             {
                 let mut st = self.db_fault.lock().unwrap();
                 st.crashed = false;
                 st.armed = None;
             }
-            if let Err(e) = self.agg.start() {
+            if let Err(e) = self.start_aggregator() {
                 return Applied { enabled: true, note: format!("{} ; restart after crash FAILED: {e:#}", r.note) };
             }
             self.restarts_at.push(self.step);
@@ -691,8 +762,8 @@ impl World {
                 ok(format!("open message {} expires", om.entity.label()))
             }
             Event::Restart => {
-                self.agg.stop();
-                if let Err(e) = self.agg.start() {
+                self.stop_aggregator();
+                if let Err(e) = self.start_aggregator() {
                     return ok(format!("restart FAILED: {e:#}"));
                 }
                 self.restarts_at.push(self.step);
@@ -775,6 +846,48 @@ impl World {
                 st.seen = 0;
                 st.armed = Some((*statement, *crash));
                 ok(String::new())
+            }
+            Event::SignerTick { party, policy } => {
+                if *party >= self.signers.len() || !self.signers[*party].is_up() {
+                    return skip("no such signer node");
+                }
+                *self.link.step.lock().unwrap() = self.step;
+                let seed = self.sc.seed ^ (self.sc.run << 20) ^ ((*party as u64) << 12) ^ self.step as u64;
+                let calls_before = self.link.calls.lock().unwrap().len();
+                let (label, err) = self.signers[*party].tick(policy, seed);
+                self.signer_ticks.push((self.step, *party, label.clone(), err.clone()));
+                let new_calls: Vec<(&'static str, Option<u16>, &'static str)> =
+                    self.link.calls.lock().unwrap()[calls_before..].iter().map(|c| (c.kind, c.status, c.fault)).collect();
+                for (kind, status, fault) in &new_calls {
+                    if !fault.is_empty() {
+                        self.hit(&format!("fault_link_{}", fault.replace('-', "_")));
+                    }
+                    if *kind == "register-signatures" && matches!(status, Some(201 | 202)) {
+                        self.hit("probe_signature_accepted_from_real_signer");
+                    }
+                }
+                ok(format!(
+                    "signer {party} -> {label}{} calls {:?}",
+                    err.as_ref().map(|e| format!(" ERR {}", first_line(e))).unwrap_or_default(),
+                    new_calls.iter().map(|(k, s, f)| format!("{k}:{}{}", s.map(|s| s.to_string()).unwrap_or("-".into()), if f.is_empty() { String::new() } else { format!("!{f}") })).collect::<Vec<_>>()
+                ))
+            }
+            Event::SignerRestart { party } => {
+                if *party >= self.signers.len() {
+                    return skip("no such signer node");
+                }
+                if let Err(e) = self.signers[*party].start() {
+                    return ok(format!("signer restart FAILED: {e:#}"));
+                }
+                self.hit("fault_signer_restart");
+                ok(String::new())
+            }
+            Event::SignerSyncView { party } => {
+                if *party >= self.signers.len() || self.signer_view_is_synced(*party) {
+                    return skip("already in sync");
+                }
+                self.sync_signer_view(*party);
+                ok(format!("signer {party} sees epoch {} immutable {}", self.epoch, self.immutable))
             }
             Event::CheckLiveness => {
                 self.liveness_requested = true;
